@@ -168,7 +168,11 @@ pub enum Outcome {
 
 pub struct SRun {
     pub violation: Option<SViolation>,
+    /// operations and their bit images, thread by thread (independent of the schedule on a tree
+    /// where the property holds)
     pub digest: u64,
+    /// the scheduling decisions actually taken
+    pub trace_digest: u64,
     pub decisions: Vec<usize>,
     pub ops_run: usize,
     pub yields: u64,
@@ -560,6 +564,7 @@ pub fn run_plan(plan: &SchedPlan, shared: &Shared, ref_shared: &Shared, refs: &m
                         let r = SRun {
                             violation: None,
                             digest: 0,
+                            trace_digest: 0,
                             decisions: decisions.clone(),
                             ops_run: 0,
                             yields: 0,
@@ -600,6 +605,7 @@ pub fn run_plan(plan: &SchedPlan, shared: &Shared, ref_shared: &Shared, refs: &m
                         let r = SRun {
                             violation: None,
                             digest: 0,
+                            trace_digest: 0,
                             decisions: decisions.clone(),
                             ops_run: 0,
                             yields: 0,
@@ -625,6 +631,7 @@ pub fn run_plan(plan: &SchedPlan, shared: &Shared, ref_shared: &Shared, refs: &m
                     let r = SRun {
                         violation: None,
                         digest: 0,
+                        trace_digest: 0,
                         decisions: decisions[..decisions.len().min(2000)].to_vec(),
                         ops_run: 0,
                         yields: 0,
@@ -647,8 +654,9 @@ pub fn run_plan(plan: &SchedPlan, shared: &Shared, ref_shared: &Shared, refs: &m
     let mut log = vec![];
     let mut violation: Option<SViolation> = None;
     let mut ops_run = 0usize;
+    let mut tdg = Digest::new();
     for d in &decisions {
-        dg.u64(*d as u64);
+        tdg.u64(*d as u64);
     }
     let sc = &spools().scalars;
     let all: Vec<Vec<(Outcome, Vec<Claim>)>> = results.into_iter().map(|m| m.into_inner().unwrap()).collect();
@@ -849,6 +857,7 @@ pub fn run_plan(plan: &SchedPlan, shared: &Shared, ref_shared: &Shared, refs: &m
     SRun {
         violation,
         digest: dg.finish(),
+        trace_digest: tdg.finish(),
         decisions,
         ops_run,
         yields: yields_n,
